@@ -6,7 +6,6 @@ import (
 	"github.com/orda-io/orda/client/pkg/iface"
 	"github.com/orda-io/orda/client/pkg/orda"
 
-	"github.com/orda-io/orda/server/constants"
 	"github.com/orda-io/orda/server/managers"
 	"github.com/orda-io/orda/server/schema"
 )
@@ -59,7 +58,7 @@ func (its *Manager) GetLatestDatatype() (iface.Datatype, uint64, errors.OrdaErro
 	// the copy is rebuilt from what is stored: the snapshot operation that the fresh instance issued
 	// for itself when it was created must not stay in its buffer (it would be pushed with the next patch)
 	datatype.ResetWired()
-	opList, sseqList, err := its.managers.Mongo.GetOperations(its.ctx, its.datatypeDoc.DUID, lastSseq+1, constants.InfinitySseq)
+	opList, sseqList, err := its.managers.Mongo.GetOperations(its.ctx, its.datatypeDoc.DUID, lastSseq+1, its.datatypeDoc.Sseq.End)
 	if err != nil {
 		return nil, 0, err
 	}
